@@ -5,11 +5,20 @@ import (
 	"strings"
 
 	"pault.ag/go/debian/control"
+	"pault.ag/go/debian/dependency"
 )
 
 // otherKinds decodes one document of every other typed kind: a program that orders sources has usually read
 // .changes files and indexes before, in the same process
 func otherKinds() {
+	// ... and has parsed architecture names and re-used the values it got (they are the caller's), as a build driver moving
+	// from one target to the next does
+	for _, n := range []string{"amd64", "i386", "hurd-i386", "linux-any", "any-amd64", "hurd-any", "any", "all", "kfreebsd-amd64", "musl-linux-amd64"} {
+		if x, err := dependency.ParseArch(n); err == nil {
+			x.UnmarshalControl("sparc64")
+			x.ABI, x.OS = "edited", "edited"
+		}
+	}
 	control.ParseChanges(bufio.NewReader(strings.NewReader("Format: 1.8\nSource: w\nBinary: w1 w2 w3\nArchitecture: source amd64\nVersion: 1-1\nMaintainer: A <a@b.c>\nCloses: 1 2\nFiles:\n d41d8cd98f00b204e9800998ecf8427e 0 devel optional w_1-1.dsc\n")), "")
 	control.ParseSourceIndex(bufio.NewReader(strings.NewReader("Package: v\nBinary: v1, v2\nVersion: 1\nArchitecture: any all\nFiles:\n d41d8cd98f00b204e9800998ecf8427e 0 v_1.dsc\n")))
 	control.ParseBinaryIndex(bufio.NewReader(strings.NewReader("Package: u\nVersion: 1\nArchitecture: amd64\nTag: a::b, c::d\nBuild-Ids: 1 2\n")))
